@@ -623,6 +623,16 @@ func c10Run(c lib.Case, env *lib.Env) lib.Result {
 				nmut++
 			}
 		} else {
+			// the stream header itself: no compression sub-message, unknown / negative algorithm, odd qualities
+			for hi, h := range []*pwr.PatchHeader{{}, {Compression: &pwr.CompressionSettings{Algorithm: 77}}, {Compression: &pwr.CompressionSettings{Algorithm: -1}},
+				{Compression: &pwr.CompressionSettings{Algorithm: pwr.CompressionAlgorithm_GZIP, Quality: 1 << 30}}, {Compression: &pwr.CompressionSettings{Algorithm: pwr.CompressionAlgorithm_BROTLI, Quality: -9}}} {
+				if inChunk(nmut) && s.Comp == "none" {
+					if enc, eerr := lib.EncodeStream(lib.MagicPatch, h, ps.Flat(), lib.Comp{Algo: "none"}); eerr == nil {
+						cr.feedPatch(enc, fmt.Sprintf("#%d %s header variant %d: %v", nmut, s.Stream, hi, h))
+					}
+				}
+				nmut++
+			}
 			for _, m := range patchMutants(ps) {
 				if inChunk(nmut) {
 					enc, eerr := lib.EncodeStream(lib.MagicPatch, hdr, m.body, comp)
